@@ -53,6 +53,14 @@ for pid in sorted(os.listdir(root)):
         rows.append((pid, name, bool(detected_by), detected_by, round(time.time() - t, 1), outs))
         print("%-4s %-28s %s  by=%s  %.0fs  %s" % (pid, name, "DETECTED" if detected_by else "MISSED  ", detected_by, time.time() - t,
                                                  "; ".join(v[1][0][:150] for v in outs.values() if v[1])), flush=True)
-json.dump([dict(id=r[0], name=r[1], detected=r[2], by=r[3], wall_s=r[4]) for r in rows], open(os.path.join(V, "seeded", "last_run_%s.json" % tier), "w"), indent=1)
+dp = os.path.join(V, "seeded", "detect.json")
+det = json.load(open(dp)) if os.path.exists(dp) else {}
+for r in rows:
+    first = ""
+    for v in r[5].values():
+        if v[1]:
+            first = v[1][0]
+    det[r[1]] = dict(detected=r[2], by=r[3], how="%s tier, seed %s%s" % (tier, os.environ.get("VERIF_SEED", "1"), ", no-failing-input-found" if "no-failing-input-found" in first else ", concrete replay" if r[2] else ""))
+json.dump(det, open(dp, "w"), indent=1, sort_keys=True)
 shutil.rmtree(os.path.join(V, "evidence"))
 shutil.move(evbak, os.path.join(V, "evidence"))
